@@ -116,13 +116,19 @@ func (d *docSpec) json() []byte {
 
 // ---------------------------------------------------------------- reference validator
 
-const unjudged = "UNJUDGED"
-
-// reference returns the labels of the rules of the property statement that the
-// document violates (sorted, unique); empty = well-formed. It consults only the
-// hand-written labels of tables.go. skip[i] tells whether statement i is a skip
-// statement (by the label of its level).
+// reference returns the labels of the rules NAMED IN THE PROPERTY STATEMENT that
+// the document violates (sorted, unique); empty = obeys every stated rule.
 func reference(d *docSpec) (reasons []string, skip []bool) {
+	reasons, _, skip = referenceFull(d)
+	return reasons, skip
+}
+
+// referenceFull consults only the hand-written labels of tables.go. hard = violated
+// rules the statement names; soft = features on which the statement is silent
+// (unstatedRules in tables.go): a document with soft labels only is not judged,
+// what the code does with it is recorded as evidence. skip[i] tells whether
+// statement i is a skip statement (by the label of its level).
+func referenceFull(d *docSpec) (hard, soft []string, skip []bool) {
 	set := map[string]bool{}
 	add := func(r string) { set[r] = true }
 
@@ -142,6 +148,8 @@ func reference(d *docSpec) (reasons []string, skip []bool) {
 		for j := 0; j < i; j++ {
 			if d.Stmts[i].Name == d.Stmts[j].Name {
 				add("name-duplicate")
+			} else if strings.EqualFold(d.Stmts[i].Name, d.Stmts[j].Name) {
+				add("name-case-variant")
 			}
 		}
 	}
@@ -159,6 +167,9 @@ func reference(d *docSpec) (reasons []string, skip []bool) {
 		// overrides only on non-skip levels, never for integrity, skip only for revocation, known type and action
 		if len(s.Override) > 0 && skip[i] {
 			add("override-on-skip")
+		}
+		if len(s.Override) == 0 && s.EmptyOv && skip[i] {
+			add("empty-override-map-on-skip")
 		}
 		for _, e := range s.Override {
 			t, a := mustOvType(e.Type), mustOvAction(e.Action)
@@ -199,9 +210,12 @@ func reference(d *docSpec) (reasons []string, skip []bool) {
 		}
 		if !skip[i] {
 			// type:name trust stores, known type, file-name-safe name
-			for _, st := range s.Stores {
+			for k, st := range s.Stores {
 				if l := mustStore(st); l.Bad != "" {
 					add("store:" + l.Bad)
+				}
+				if hasStr(s.Stores[:k], st) {
+					add("store-repeated")
 				}
 			}
 			// identities
@@ -215,10 +229,18 @@ func reference(d *docSpec) (reasons []string, skip []bool) {
 				case idBad:
 					add("identity:" + l.Bad)
 				case idX509:
-					dns = append(dns, l)
+					if l.Alt != "" {
+						// another spelling of a DN (S for ST, other attribute order, blank after the comma):
+						// whether it parses / what it overlaps with is not fixed by the statement
+						add("identity-alternative-spelling")
+					} else {
+						dns = append(dns, l)
+					}
 				}
 			}
-			if wild > 0 && len(s.Ids) > 1 {
+			if wild > 0 && wild == len(s.Ids) && len(s.Ids) > 1 {
+				add("identity-wildcard-repeated")
+			} else if wild > 0 && len(s.Ids) > 1 {
 				add("identity-wildcard-with-company")
 			}
 			for a := range dns {
@@ -243,16 +265,14 @@ func reference(d *docSpec) (reasons []string, skip []bool) {
 					add("scope:" + l.Bad)
 				}
 				if seen[sc] {
-					// the same scope twice inside one statement: the statement of the property
-					// does not say; such documents are not judged
-					add(unjudged)
+					add("scope-repeated-in-statement")
 				}
 				if !seen[sc] {
 					scopeUsers[sc]++
 				}
 				seen[sc] = true
 			}
-			if wild > 0 && len(s.Scopes) > 1 {
+			if wild > 0 && wild < len(s.Scopes) {
 				add("scope-wildcard-with-company")
 			}
 		} else if s.Global {
@@ -274,10 +294,15 @@ func reference(d *docSpec) (reasons []string, skip []bool) {
 		add("global-multiple")
 	}
 	for r := range set {
-		reasons = append(reasons, r)
+		if _, unstated := unstatedRules[r]; unstated {
+			soft = append(soft, r)
+		} else {
+			hard = append(hard, r)
+		}
 	}
-	sort.Strings(reasons)
-	return reasons, skip
+	sort.Strings(hard)
+	sort.Strings(soft)
+	return hard, soft, skip
 }
 
 func attrsSubset(a, b [][2]string) bool {
@@ -303,6 +328,7 @@ type replayCase struct {
 	Document2   json.RawMessage `json:"blob_document,omitempty"` // kind both
 	ExpectValid bool            `json:"expect_valid"`
 	Reasons     []string        `json:"violated_rules"`
+	Unstated    []string        `json:"unstated_features,omitempty"` // non-empty and no violated rule: not judged, recorded
 	Origin      string          `json:"origin"`
 	What        string          `json:"origin_class"` // label of the rejected-valid key
 	Skip        []bool          `json:"skip_statements"`
@@ -311,11 +337,12 @@ type replayCase struct {
 var (
 	sharedStore = func() *mocks.TrustStore { t := mocks.NewTrustStore(); t.NoLog = true; return t }()
 	sharedRev   = mocks.AllOK()
+	sharedMgr   = mocks.NewManager()
 )
 
 func newVerifier(o *trustpolicy.OCIDocument, b *trustpolicy.BlobDocument) error {
 	_, err := verifier.NewVerifierWithOptions(sharedStore, verifier.VerifierOptions{
-		OCITrustPolicy: o, BlobTrustPolicy: b,
+		OCITrustPolicy: o, BlobTrustPolicy: b, PluginManager: sharedMgr,
 		RevocationCodeSigningValidator: sharedRev, RevocationTimestampingValidator: sharedRev,
 	})
 	return err
@@ -324,10 +351,11 @@ func newVerifier(o *trustpolicy.OCIDocument, b *trustpolicy.BlobDocument) error 
 // tally collects the counters of one work unit; flush merges them into the
 // run-wide totals under one lock (hx counters take a lock per call).
 type tally struct {
-	out     map[string]int64
-	reasons map[string]int // kind|rule -> documents rejected for (among others) this rule
-	accepts int
-	evals   int
+	out      map[string]int64
+	reasons  map[string]int // kind|rule -> documents rejected for (among others) this rule
+	accepts  int
+	vaccepts int // documents the verifier constructor accepted
+	evals    int
 }
 
 func newTally() *tally { return &tally{out: map[string]int64{}, reasons: map[string]int{}} }
@@ -346,6 +374,7 @@ func (t *tally) flush() {
 		st.reasons[k] += v
 	}
 	st.accepts += t.accepts
+	st.vaccepts += t.vaccepts
 	st.evals += t.evals
 	st.Unlock()
 }
@@ -394,7 +423,7 @@ func flushViolations(r *hx.Run) {
 
 // judge runs the real code on one document and compares with the expected verdict.
 // what: class of the origin used in the rejected-valid key.
-func judge(r *hx.Run, t *tally, kind string, o *trustpolicy.OCIDocument, b *trustpolicy.BlobDocument, expectValid bool, reasons []string, skip []bool, what, origin string) {
+func judge(r *hx.Run, t *tally, kind string, o *trustpolicy.OCIDocument, b *trustpolicy.BlobDocument, expectValid bool, reasons, soft []string, skip []bool, what, origin string) {
 	rc := func() replayCase {
 		var raw []byte
 		if kind == "oci" {
@@ -402,7 +431,7 @@ func judge(r *hx.Run, t *tally, kind string, o *trustpolicy.OCIDocument, b *trus
 		} else {
 			raw, _ = json.Marshal(b)
 		}
-		return replayCase{Kind: kind, Document: raw, ExpectValid: expectValid, Reasons: reasons, Origin: origin, What: what, Skip: skip}
+		return replayCase{Kind: kind, Document: raw, ExpectValid: expectValid, Reasons: reasons, Unstated: soft, Origin: origin, What: what, Skip: skip}
 	}
 	var err, verr error
 	if kind == "oci" {
@@ -417,16 +446,30 @@ func judge(r *hx.Run, t *tally, kind string, o *trustpolicy.OCIDocument, b *trus
 	switch {
 	case err == nil && !expectValid:
 		report(kind+"/accepted-invalid:"+why, fmt.Sprintf("Validate accepted a %s document that violates %v (%s): %s", kind, reasons, origin, rc().Document), rc())
-	case err != nil && expectValid:
-		report(kind+"/rejected-valid:"+what, fmt.Sprintf("Validate rejected a well-formed %s document (%s) with %q: %s", kind, origin, err, rc().Document), rc())
-	case err == nil:
-		t.out[kind+":accepted-valid"]++
-	default:
+	case !expectValid:
 		t.out[kind+":rejected-invalid"]++
+	case len(soft) > 0:
+		// obeys every stated rule but has a feature the statement is silent about: evidence only
+		verdict := map[bool]string{true: "accepted", false: "rejected"}[err == nil]
+		for _, x := range soft {
+			t.out["recorded:"+kind+"/"+verdict+"-with-unstated-feature:"+x]++
+		}
+	case err != nil:
+		report(kind+"/rejected-valid:"+what, fmt.Sprintf("Validate rejected a well-formed %s document (%s) with %q: %s", kind, origin, err, rc().Document), rc())
+	default:
+		t.out[kind+":accepted-valid"]++
 	}
-	if (err == nil) != (verr == nil) {
-		report(kind+"/verifier-differs-from-validate:"+map[bool]string{true: "verifier-accepts", false: "verifier-rejects"}[verr == nil],
-			fmt.Sprintf("Validate: %v, NewVerifierWithOptions: %v (%s)", err, verr, origin), rc())
+	// the verifier constructor is the other place where a document is accepted: it must not take a
+	// document that violates a stated rule. That it refuses a document Validate accepts (or accepts an
+	// unjudged one) is recorded only: the constructor may have reasons of its own.
+	switch {
+	case verr == nil && !expectValid:
+		report(kind+"/verifier-accepted-invalid:"+why, fmt.Sprintf("NewVerifierWithOptions accepted a %s document that violates %v (Validate: %v; %s): %s", kind, reasons, err, origin, rc().Document), rc())
+	case (err == nil) != (verr == nil):
+		t.out["recorded:"+kind+"/verifier-differs-from-validate:"+map[bool]string{true: "verifier-accepts", false: "verifier-rejects"}[verr == nil]]++
+	}
+	if verr == nil {
+		t.vaccepts++
 	}
 	if err == nil || verr == nil {
 		// every statement of an accepted document yields a level enforcing integrity unless skip
@@ -458,7 +501,7 @@ func judge(r *hx.Run, t *tally, kind string, o *trustpolicy.OCIDocument, b *trus
 			}
 		}
 	}
-	if err == nil && expectValid {
+	if err == nil && expectValid && len(soft) == 0 {
 		t.accepts++
 	}
 	if err != nil && !expectValid {
@@ -470,23 +513,17 @@ func judge(r *hx.Run, t *tally, kind string, o *trustpolicy.OCIDocument, b *trus
 
 // judgeSpec = reference + real code on a spec.
 func judgeSpec(r *hx.Run, t *tally, d *docSpec, what, origin string) (valid bool) {
-	reasons, skip := reference(d)
-	for _, x := range reasons {
-		if x == unjudged {
-			t.out[d.Kind+":unjudged(scope twice in one statement)"]++
-			return false
-		}
-	}
+	reasons, soft, skip := referenceFull(d)
 	if d.Kind == "oci" {
 		o := d.oci()
 		raw, _ := json.Marshal(o)
 		r.Nontrivial("oci|" + string(raw))
-		judge(r, t, "oci", o, nil, len(reasons) == 0, reasons, skip, what, origin)
+		judge(r, t, "oci", o, nil, len(reasons) == 0, reasons, soft, skip, what, origin)
 	} else {
 		b := d.blob()
 		raw, _ := json.Marshal(b)
 		r.Nontrivial("blob|" + string(raw))
-		judge(r, t, "blob", nil, b, len(reasons) == 0, reasons, skip, what, origin)
+		judge(r, t, "blob", nil, b, len(reasons) == 0, reasons, soft, skip, what, origin)
 	}
 	return len(reasons) == 0
 }
@@ -801,7 +838,7 @@ func editsFor(base *docSpec) []edit {
 				viol("identity-wildcard-with-company", fmt.Sprintf("s%d/wildcard-then-dn", si), true, sl("ids"), func(d *docSpec) { d.Stmts[si].Ids = append(d.Stmts[si].Ids, dnA) })
 				viol("identity-wildcard-with-company", fmt.Sprintf("s%d/dn-then-wildcard", si), false, sl("ids"), func(d *docSpec) { d.Stmts[si].Ids = append([]string{dnA}, d.Stmts[si].Ids...) })
 				viol("identity-wildcard-with-company", fmt.Sprintf("s%d/wildcard-then-other-prefix", si), false, sl("ids"), func(d *docSpec) { d.Stmts[si].Ids = append(d.Stmts[si].Ids, "unknown-prefix:x") })
-				viol("identity-wildcard-with-company", fmt.Sprintf("s%d/wildcard-twice", si), false, sl("ids"), func(d *docSpec) { d.Stmts[si].Ids = append(d.Stmts[si].Ids, "*") })
+				viol("identity-wildcard-repeated", fmt.Sprintf("s%d/wildcard-twice", si), false, sl("ids"), func(d *docSpec) { d.Stmts[si].Ids = append(d.Stmts[si].Ids, "*") })
 			} else {
 				viol("identity-wildcard-with-company", fmt.Sprintf("s%d/wildcard-appended", si), true, sl("ids"), func(d *docSpec) { d.Stmts[si].Ids = append(d.Stmts[si].Ids, "*") })
 				viol("identity-wildcard-with-company", fmt.Sprintf("s%d/wildcard-prepended", si), false, sl("ids"), func(d *docSpec) { d.Stmts[si].Ids = append([]string{"*"}, d.Stmts[si].Ids...) })
@@ -811,6 +848,10 @@ func editsFor(base *docSpec) []edit {
 						continue
 					}
 					m := m
+					if m.Alt != "" { // another spelling of a DN: recorded, not judged
+						keep("add-alternative-spelling-identity/"+m.Tag, false, sl("ids"), func(d *docSpec) { d.Stmts[si].Ids = append(d.Stmts[si].Ids, m.V) })
+						continue
+					}
 					rel := "" // relation of the new identity to the existing ones, decided on the labels
 					for _, have := range bs.Ids {
 						h := mustID(have)
@@ -985,8 +1026,8 @@ func enumEdits(r *hx.Run, kind string) {
 				r.Infra("harness: edit %s not applicable to its own base %s", e.Op, b.ID)
 				continue
 			}
-			rs, _ := reference(d)
-			if e.Rule != "" && !hasStr(rs, e.Rule) {
+			rs, sf, _ := referenceFull(d)
+			if e.Rule != "" && !hasStr(rs, e.Rule) && !hasStr(sf, e.Rule) {
 				r.Infra("harness: edit %s on %s must violate %s, reference says %v", e.Op, b.ID, e.Rule, rs)
 				continue
 			}
@@ -1318,7 +1359,8 @@ func enumBoth(r *hx.Run) {
 			case err == nil && !want:
 				report("both/verifier-accepted-invalid:"+strings.Join(rc.Reasons, "+"), fmt.Sprintf("NewVerifierWithOptions accepted oci %s blob %s", or, br), rc)
 			case err != nil && want:
-				report("both/verifier-rejected-valid", fmt.Sprintf("NewVerifierWithOptions: %v; oci %s blob %s", err, or, br), rc)
+				// the constructor may have reasons of its own: evidence only
+				t.out["recorded:both/verifier-rejected-valid"]++
 			case err == nil:
 				t.out["both:accepted-valid"]++
 			default:
@@ -1351,14 +1393,14 @@ func replay(r *hx.Run) {
 			r.Infra("replay: %v", err)
 			return
 		}
-		judge(r, t, "oci", &o, nil, c.ExpectValid, c.Reasons, c.Skip, c.What, c.Origin)
+		judge(r, t, "oci", &o, nil, c.ExpectValid, c.Reasons, c.Unstated, c.Skip, c.What, c.Origin)
 	case "blob":
 		var b trustpolicy.BlobDocument
 		if err := json.Unmarshal(c.Document, &b); err != nil {
 			r.Infra("replay: %v", err)
 			return
 		}
-		judge(r, t, "blob", nil, &b, c.ExpectValid, c.Reasons, c.Skip, c.What, c.Origin)
+		judge(r, t, "blob", nil, &b, c.ExpectValid, c.Reasons, c.Unstated, c.Skip, c.What, c.Origin)
 	case "both":
 		var o trustpolicy.OCIDocument
 		var b trustpolicy.BlobDocument
@@ -1371,8 +1413,6 @@ func replay(r *hx.Run) {
 		switch {
 		case err == nil && !c.ExpectValid:
 			report("both/verifier-accepted-invalid:"+strings.Join(c.Reasons, "+"), fmt.Sprintf("NewVerifierWithOptions accepted oci %s blob %s", c.Document, c.Document2), c)
-		case err != nil && c.ExpectValid:
-			report("both/verifier-rejected-valid", fmt.Sprintf("NewVerifierWithOptions: %v; oci %s blob %s", err, c.Document, c.Document2), c)
 		}
 	default:
 		r.Infra("replay: unknown kind %q", c.Kind)
@@ -1386,10 +1426,11 @@ func main() {
 	r.Assumptions = []string{
 		"documents are built as Go values (JSON loading is C12's domain); nil and empty lists are both used",
 		"every store, identity, scope, level, option, type and action string carries a hand-written label (tables.go); the reference never inspects the strings",
-		"an identity that is neither '*' nor <prefix>:<value> (empty, no separator) is labelled invalid: read as part of 'x509.subject identities parse' although the statement does not spell it out; identities with another prefix are valid",
-		"a DN with multi-valued RDN, duplicate attribute or '=#' value is labelled as 'does not parse'",
-		"overlap = the attribute set (hand-written, S read as ST) of one DN contains the other's; DNs differing only in letter case of a value are not in the alphabet",
-		"the same scope twice inside one statement is not judged (statement silent); store names are labelled unsafe only for empty, '/', '\\\\', blank, '.', '..'",
+		"only rules named in the statement are enforced; features the statement is silent about (tables.go unstatedRules: unknown override type/action, empty or separator-less identity, DN with duplicate attribute / multi-valued RDN / '=#', other spellings of a DN such as S for ST, statement without scopes, repeated store / scope / wildcard, names differing in case only, blank or non-ASCII store name, empty override object on skip) make a document 'not judged' unless it also violates a stated rule; what the code does with them is recorded as outcome classes recorded:*",
+		"identities with a prefix other than x509.subject obey every stated rule (valid)",
+		"overlap = the hand-written attribute set of one DN contains the other's (identical DNs, DN and the same DN with one more attribute); DNs differing only in letter case of a value or compatible without containment are not in the alphabet",
+		"store names are labelled not file-name-safe for: empty, '/', '\\\\', ':', control characters, '.', '..'",
+		"NewVerifierWithOptions must not accept a document violating a stated rule; its refusing a document that Validate accepts is recorded only",
 	}
 	if r.Replay != "" {
 		replay(r)
@@ -1415,8 +1456,12 @@ func main() {
 			r.Outcome(k)
 		}
 	}
-	if st.accepts == 0 {
-		r.Infra("no valid document was accepted: positive controls failed")
+	if st.accepts == 0 && r.Violations() == 0 {
+		r.Infra("no valid document was accepted and nothing was reported: positive controls failed")
+	}
+	if st.vaccepts == 0 {
+		// the constructor accepted nothing: the verifier-accepted-invalid clause was vacuous in this run (evidence, not an error)
+		r.Outcome("recorded:verifier-constructor-accepted-no-document")
 	}
 	keys := make([]string, 0, len(st.reasons))
 	for k := range st.reasons {
